@@ -126,6 +126,43 @@ def template_oracle(chk, rng, rounds):
                     chk.fail("reserved-name-not-mangle-stable", {"program": src, "name": n}, hy.mangle(n), n, "hy.mangle(name)")
 
 
+def let_oracle(chk, rng, n):
+    """a let that binds one name several times gives every binding its own temporary: closures created between two
+    bindings of a name keep seeing the earlier one"""
+    hy = vlib.use_repo_in_process()
+    from hy.compiler import hy_compile
+    for i in range(n):
+        names = ["a", "b", "c-d"][: rng.randrange(1, 4)]
+        binds, env, closures, expect = [], {}, [], []
+        for j in range(rng.randrange(2, 7)):
+            nm = rng.choice(names)
+            if env and rng.random() < 0.4:
+                src_nm = rng.choice(sorted(env))
+                cname = "k%d" % j
+                binds.append((cname, "(fn [] %s)" % src_nm))
+                closures.append((cname, env[src_nm]))
+            else:
+                val = rng.randrange(100)
+                binds.append((nm, str(val)))
+                env[nm] = val
+        body = "[" + " ".join("(%s)" % c for c, _ in closures) + " " + " ".join(sorted(env)) + "]"
+        src = "(let [%s] %s)" % (" ".join("%s %s" % b for b in binds), body)
+        want = [v for _, v in closures] + [env[k] for k in sorted(env)]
+        try:
+            got = hy.eval(hy.read(src), {})
+        except Exception as e:
+            got = "raises " + type(e).__name__
+        tree = hy_compile(hy.read(src), types.ModuleType("hyverif_c12l"), import_stdlib=False)
+        stores = {x.id for x in ast.walk(tree) if isinstance(x, ast.Name) and isinstance(x.ctx, ast.Store) and x.id.startswith("_hy_let_")}
+        chk.count("let:bindings=%d" % len(binds))
+        chk.case("L:" + src, nontrivial=len(binds) >= 3, sample={"program": src, "value": repr(got)} if i % 150 == 7 else None)
+        if got != want:
+            chk.fail("let-binding-shared", {"program": src}, repr(got), repr(want), "hy.eval(hy.read(src), {})")
+        elif len(stores) != len(binds):
+            chk.fail("let-temporaries-not-distinct", {"program": src}, "%d distinct _hy_let_ names for %d bindings" % (len(stores), len(binds)),
+                     "one temporary per binding", "hy_compile; Store names starting with _hy_let_")
+
+
 def run(chk):
     chk.trusted = cc.TRUSTED_COMPILER
     chk.assumptions = ["observed names: Name ids, def/class names, args, handler names, pattern captures, import aliases, "
@@ -146,3 +183,4 @@ def run(chk):
                 % len(TEMPLATES))
     cc.differential(chk, progs)
     template_oracle(chk, rng, 40 if thorough else 6)
+    let_oracle(chk, rng, 4000 if thorough else 400)
